@@ -718,7 +718,7 @@ class Cond:
         if k in seen or len(seen) > 10:
             return {()}
         if self.col.is_factory(fi) is None and fi.fn.name in ENTRY_POINTS(self.flow):
-            out = {((CMD, fi.fn.name),)}
+            out = dnf_simplify(dnf_and({((CMD, fi.fn.name),)}, self.accepted()))
             self.feas_cache[k] = out
             return out
         sites = self.col.sites_of(fi)
@@ -741,6 +741,39 @@ class Cond:
         if not seen:
             self.feas_cache[k] = out
         return out
+
+    def accepted(self) -> Set[tuple]:
+        """option values that cli.main lets through: evolution.check_arguments(arg, parser) runs before every builder and `parser.error(...)` exits.  The cubes reaching a
+        parser.error call are rejected; their complement (over the finite option domains) is returned as a DNF."""
+        if getattr(self, '_accepted', None) is not None:
+            return self._accepted
+        acc: Set[tuple] = {()}
+        self.rejected: List[tuple] = []
+        for fi in self.flow.fns.get('check_arguments', []):
+            for node in fi.cfg.stmt_nodes():
+                st = node.stmt
+                if not (isinstance(st, ast.Expr) and isinstance(st.value, ast.Call) and isinstance(st.value.func, ast.Attribute) and st.value.func.attr == 'error'
+                        and isinstance(st.value.func.value, ast.Name) and st.value.func.value.id == 'parser'):
+                    continue
+                # a rejection that depends on a free-form option (--grid, --cutoff …) holds for some of its values only: it excludes nothing here
+                free_dep = False
+                p_ = getattr(st, '_parent', None)
+                while p_ is not None and p_ is not fi.fn:
+                    if isinstance(p_, (ast.If, ast.While)):
+                        for x in ast.walk(p_.test):
+                            if isinstance(x, ast.Attribute) and isinstance(x.value, ast.Name) and x.value.id in ARG_NAMES and x.attr not in self.flow.fin:
+                                free_dep = True
+                    p_ = getattr(p_, '_parent', None)
+                if free_dep:
+                    continue
+                for cube in self.point(fi, node.id, ()):
+                    if not cube:
+                        continue    # reachable under every finite option value: nothing to exclude
+                    self.rejected.append(cube)
+                    alt = {((o, v2),) for o, v in cube for v2 in self.domain(o) if v2 != v}
+                    acc = dnf_simplify(dnf_and(acc, alt))
+        self._accepted = acc
+        return acc
 
     def of(self, x: S) -> Optional[Set[tuple]]:
         """DNF under which every point of the template is live and its function can be called; None if it cannot be represented"""
@@ -911,9 +944,17 @@ def check_ids(ctx, rep):
                 if not (isinstance(k, ast.Constant) and k.value in info.ref_keys):
                     continue
                 n_sites += 1
-                s, _ = col.strings(v, fi, 0, False)
-                for x in s:
-                    refs.append((x.with_pt(col.pt(fi, d)), f"{t}.{k.value}", f"{fi.module.path}:{getattr(v, 'lineno', d.lineno)}"))
+                # an untyped mapping under a reference key (`"parameters": {"loc": "tree.root_height", "scale": 1.0}`): the reader resolves each string value
+                vals = [(v, k.value)]
+                if isinstance(v, ast.Dict) and literal_type(v) is None and not any(isinstance(kk, ast.Constant) and kk.value == 'id' for kk in v.keys):
+                    vals = [(vv, f"{k.value}.{kk.value}") for kk, vv in zip(v.keys, v.values) if isinstance(kk, ast.Constant) and isinstance(vv, (ast.Constant, ast.JoinedStr, ast.Name))
+                            and not (isinstance(vv, ast.Constant) and not isinstance(vv.value, str))]
+                for vv, kname in vals:
+                    if isinstance(vv, ast.Name) and vv is not v:
+                        continue
+                    s, _ = col.strings(vv, fi, 0, False)
+                    for x in s:
+                        refs.append((x.with_pt(col.pt(fi, d)), f"{t}.{kname}", f"{fi.module.path}:{getattr(vv, 'lineno', d.lineno)}"))
     rep.analysed['C19.R'] = {'definitions': len(defs), 'reference_sites': n_sites, 'reference_strings': len(refs)}
     if n_sites < 60 or len(refs) < 80:
         raise AnalysisError(f"only {n_sites} reference sites / {len(refs)} reference strings found")
@@ -982,6 +1023,7 @@ def check_ids(ctx, rep):
             n_skipped += 1
             continue
         failing = []
+        deciding: Set[str] = set()
         n_env = 0
         for cube in sorted(r_dnf, key=repr):
             base = dict(cube)
@@ -1063,6 +1105,24 @@ def check_ids(ctx, rep):
                         break
                 if bad_env is not None:
                     failing.append((name, bad_env))
+                    # an option decides this case if some other value of it (everything else unchanged) lets a definition cover the reference
+                    for o in extra:
+                        for v2 in domain(o):
+                            if v2 == bad_env[o]:
+                                continue
+                            env2 = {**bad_env, o: v2}
+                            items2 = {(k_, v_) for k_, v_ in env2.items() if k_ in extra}
+                            hit = False
+                            for i, res in cand_dnfs:
+                                dfn = defs[i][0]
+                                if dfn.opts() and not re.fullmatch(dfn.regex({**flow.free_default, **env2}), name):
+                                    continue
+                                if any(c <= items2 for c in res) and not dead_under(dfn, env2):
+                                    hit = True
+                                    break
+                            if hit:
+                                deciding.add(o)
+                                break
                     break
             if len(failing) >= 6:
                 break
@@ -1082,6 +1142,10 @@ def check_ids(ctx, rep):
                 continue
             name, env = failing[0]
             envtxt = ', '.join(f"{k}={v!r}" for k, v in sorted(env.items())) or 'every option value'
+            # the option values that decide whether a definition of the id is emitted and that all failing environments share: they name *which* dangling case this is
+            under = sorted((o, v) for o, v in common if o in deciding)
+            if under:
+                key = key + '::under::' + '+'.join(f"{o}={v}" for o, v in under)
             rep.bad('C19.R', key, W, {'environments': [', '.join(f"{k}={v!r}" for k, v in sorted(e.items())) for _, e in failing[:6]], 'count': len(failing)},
                     f"the emitted {slot} refers to '{name}', but under [{envtxt}] no object with that id is emitted (no definition of a matching id is reachable "
                     f"under these option values): torchtree stops with: Object with ID `{name}' not found")
